@@ -243,6 +243,33 @@ func runC21(c *Ctx) {
 		c.Offences(g, offs, r6, "findOneFileRegion: a location is returned only for the id's own record or after all segment files were searched", f.Decl.Pos(), "success returns lie behind `lid == id` or the no-further-segment branch",
 			"in write mode the search answers with the first free slot (an empty ideal slot, an empty slot in the block, a short file) although the id may be stored further on - in a later slot or a later segment file, where it was put when those places were taken: Update then stores a second copy, Remove deletes only one of them or fails with `can't delete a missing item`, and Get serves the stale copy")
 	}
+	r7 := c.Rule("R7", "every region handed to the slot writers is written: in markDeleteFileRegion and updateFileRegion each iteration of the loop over the located regions reaches the block update (zero sector / marshalled handle); no region is skipped on the strength of its content", 2)
+	for _, k := range []string{"fs.hashmap.markDeleteFileRegion", "fs.hashmap.updateFileRegion"} {
+		f := w.Fn(k)
+		g := w.G(f)
+		c.Analysed(f)
+		wr := g.Find(calls(kHMupdateBlock))
+		if len(wr) != 1 {
+			c.Violated(r7, shortKey(k)+": one block update per region", f.Decl.Pos(), fmt.Sprintf("found %d updateFileBlockRegion calls", len(wr)), nil)
+			continue
+		}
+		head := enclosingRangeHead(g, wr[0])
+		if head == nil {
+			c.Violated(r7, shortKey(k)+": one block update per region", f.Decl.Pos(), "the block update is not inside a range loop over the regions", nil)
+			continue
+		}
+		var body []int
+		for _, e := range head.Succs {
+			if e.Cond == 1 {
+				body = append(body, e.To)
+			}
+		}
+		offs := g.MustFollowFrom(body, func(n *GNode) bool { return n == wr[0] }, func(n *GNode) bool {
+			return n == head || (n.Ret != nil && g.ClassifyReturn(n) != RetNonNil)
+		})
+		c.Offences(g, offs, r7, shortKey(k)+": each located region is written", f.Decl.Pos(), "every iteration reaches updateFileBlockRegion",
+			"an iteration can skip the block update (and the function still reports success): the slot of an id that was found keeps its record - a removed id stays on disk and comes back on the next cold lookup, its slot is never freed")
+	}
 	r4 := c.Rule("R4", "fetch skips only 'id not found' and returns every other error", 1)
 	{
 		f := w.Fn("fs.hashmap.fetch")
